@@ -80,21 +80,22 @@ class Sim:
     def last_incarnations(self, type_=None):
         return [l[-1] for l in self.db.values() if type_ is None or l[-1].type == type_]
 
-    def alloc_client(self):
-        if self.free_client and self.rng.random() < 0.9:
-            i = min(self.free_client)           # libwayland hands out the lowest free id first: maximal reuse
+    def alloc_client(self, avoid=()):
+        free = [i for i in self.free_client if i not in avoid]
+        if free and self.rng.random() < 0.9:
+            i = min(free)           # libwayland hands out the lowest free id first: maximal reuse
             self.free_client.remove(i)
             return i
         i = self.next_client
         self.next_client += 1
         return i
 
-    def alloc_server(self):
-        live_server = [o for o in self.live() if o.id >= SERVER_ID_START]
+    def alloc_server(self, avoid=()):
+        live_server = [o for o in self.live() if o.id >= SERVER_ID_START and o.id not in avoid]
         r = self.rng.random()
         if live_server and r < 0.35:
             return self.rng.choice(live_server).id      # reused freely, no delete_id in between
-        dead_server = [l[-1].id for i, l in self.db.items() if i >= SERVER_ID_START and not l[-1].alive]
+        dead_server = [l[-1].id for i, l in self.db.items() if i >= SERVER_ID_START and not l[-1].alive and i not in avoid]
         if dead_server and r < 0.5:
             return self.rng.choice(dead_server)
         i = self.next_server
@@ -457,15 +458,20 @@ class Sim:
             elif ty == 'new_id':
                 if not a['interface']:
                     return None
-                nid = self.alloc_server() if md['is_event'] else self.alloc_client()
-                args.append({'k': 'n', 'v': nid, 'iface': a['interface'], 'new_type': a['interface']})
+                args.append({'k': 'n', 'v': None, 'iface': a['interface'], 'new_type': a['interface']})
             elif ty == 'array':
                 args.append({'k': 'a', 'data': [0] * self.rng.choice([0, 1, 3, 8])})
             elif ty == 'fd':
                 args.append({'k': 'h', 'v': self.rng.randint(3, 60)})
             else:
                 return None
-        # two new ids in one message must differ; a freed id taken twice would be a generator bug
+        # ids for the new objects: never an id that this same message (target or argument) mentions, otherwise the
+        # mention would be ambiguous between the old and the new object
+        avoid = {ob.id} | {x['obj'].id for x in args if x['k'] == 'o' and x.get('obj') is not None}
+        for x in args:
+            if x['k'] == 'n':
+                x['v'] = self.alloc_server(avoid) if md['is_event'] else self.alloc_client(avoid)
+                avoid.add(x['v'])
         return args
 
     def act_server_new(self):
@@ -591,11 +597,14 @@ def validate(hist):
     ill-formed input): every mention names an id created before; a client-range id is re-created only after its
     delete_id; delete_id names a created client id that is not already deleted."""
     created = {1: True}   # id -> deleted?  (True = currently existing and not deleted)
+    types = {1: 'wl_display'}
     for n, r in enumerate(hist):
-        def need(i):
+        def need(i, t=None):
             if i not in created:
                 raise AssertionError('line %d mentions id %d before its creation' % (n, i))
-        need(r['id'])
+            if t is not None and types[i] != t:
+                raise AssertionError('line %d mentions %s@%d but the latest object with that id is a %s' % (n, t, i, types[i]))
+        need(r['id'], r['iface'])
         if r['id'] == 1 and r['name'] == 'delete_id':
             i = r['args'][0]['v']
             need(i)
@@ -606,7 +615,7 @@ def validate(hist):
             created[i] = False
         for a in r['args']:
             if a['k'] == 'o' and a['v'] is not None:
-                need(a['v']['id'])
+                need(a['v']['id'], a['v']['iface'])
             if a['k'] == 'n':
                 i = a['v']
                 if i <= 1:
@@ -614,6 +623,7 @@ def validate(hist):
                 if created.get(i) is True and i < SERVER_ID_START:
                     raise AssertionError('line %d re-creates live client id %d' % (n, i))
                 created[i] = True
+                types[i] = a.get('iface') or (r['args'][1]['v'] if r['name'] == 'bind' else None)
     return True
 
 
